@@ -38,7 +38,7 @@ func init() {
 	register(&Rule{Name: "REV.OWNERLOOKUP", Props: []string{"C17", "C13"}, Floor: 1,
 		Doc: "the module a submodule belongs to is found through the include link, not by looking its bare name up (which yields the newest loaded revision)",
 		Run: ruleRevOwnerLookup})
-	register(&Rule{Name: "NUM.BASE10", Props: []string{"C10", "C15"}, Floor: 1,
+	register(&Rule{Name: "NUM.BASE10", Props: []string{"C10", "C15", "C14"}, Floor: 1,
 		Doc: "integer boundaries are read in base 10 only (RFC 7950 integer-value)",
 		Run: ruleNumBase10})
 	register(&Rule{Name: "RANGE.KINDCHECK", Props: []string{"C10"}, Floor: 2,
@@ -600,4 +600,61 @@ func ruleDevBoundPresence(c *Ctx) []Obligation {
 		return []Obligation{ok(R, con, c.Pos(la.Obj().Pos()), "a bound can be absent")}
 	}
 	return []Obligation{bad(R, con, c.Pos(la.Obj().Pos()), "an absent bound is stored as its default number (0 / MaxUint64), so the delete arm of ApplyDeviate can only compare numbers: deviate delete { min-elements 0; } (or max-elements unbounded) on a list that wrote no bound is accepted, although deleting an absent bound must be reported (the analogous absent default is)")}
+}
+
+// ---------------------------------------------------------------- ENUM.RESTRICT (hunt/h2/C14)
+
+func init() {
+	register(&Rule{Name: "ENUM.RESTRICT", Props: []string{"C14"}, Floor: 2,
+		Doc: "a type that restricts an enumeration or bits typedef (YANG 1.1) takes the values of the members it keeps from the table it inherits",
+		Run: ruleEnumRestrict})
+}
+
+func ruleEnumRestrict(c *Ctx) []Obligation {
+	const R = "ENUM.RESTRICT"
+	res := c.Fn("yang.(*Type).resolve")
+	typ := c.MustNamed("yang", "Type")
+	yt := c.MustNamed("yang", "YangType")
+	if res == nil {
+		return []Obligation{undecided(R, "member tables", "-", "(*Type).resolve not found")}
+	}
+	var obs []Obligation
+	for _, which := range []string{"Enum", "Bit"} {
+		fStmt, fTab := FieldVar(typ, which), FieldVar(yt, which)
+		con := fmt.Sprintf("yang.(*Type).resolve: the %s members of a restriction are looked up in the inherited table", strings.ToLower(which))
+		if fStmt == nil || fTab == nil {
+			obs = append(obs, undecided(R, con, "-", "Type."+which+" / YangType."+which+" not found"))
+			continue
+		}
+		// the store of the freshly built table, and a read of the inherited one that precedes it
+		var store *ssa.Store
+		for _, st := range c.storesToFieldDeep(res, fTab) {
+			if st.Parent() == res {
+				store = st
+			}
+		}
+		if store == nil {
+			obs = append(obs, undecided(R, con, c.Pos(res.Pos()), "no store of the member table in resolve"))
+			continue
+		}
+		consulted := false
+		eachInstr(res, func(in ssa.Instruction) {
+			v, okv := in.(ssa.Value)
+			if !okv {
+				return
+			}
+			if owner, f, _ := loadedField(v); owner == yt && f == fTab {
+				if blockReaches(in.Block(), store.Block(), nil) && len(*v.Referrers()) > 0 {
+					// a read that feeds something (not the Equal of the union de-duplication, which lives elsewhere)
+					consulted = true
+				}
+			}
+		})
+		if consulted {
+			obs = append(obs, ok(R, con, c.InstrPos(store), "the inherited table is read before the new one is stored"))
+		} else {
+			obs = append(obs, bad(R, con, c.InstrPos(store), "whenever "+strings.ToLower(which)+" substatements are present a fresh table is built and numbered from zero; the table inherited from the typedef is never read: typedef e { enumeration a, b, c=5, d } restricted to { b; d; } yields b=0, d=1 instead of 1 and 6 (RFC 7950 9.6.4.2: the value is the same as in the base type), a differing explicit value and a name the base does not have are accepted"))
+		}
+	}
+	return obs
 }
